@@ -83,6 +83,7 @@ type Plan struct {
 	Keys   [][]string `json:"keys"`
 	Oids   [][]string `json:"oids"`
 	Faults []Fault    `json:"faults"`
+	CaseOf []int      `json:"caseof"` // table index -> index of its case in the input (cases the writer refuses are skipped)
 }
 
 func unhex(s string) []byte {
@@ -396,6 +397,30 @@ func randomFaults(ti int, data []byte, n int, rng *rand.Rand) []Fault {
 		src, dst := rng.Intn(len(data)-l+1), rng.Intn(len(data)-l+1)
 		cls := []string{"overwrite", "delete", "insert"}[rng.Intn(3)]
 		out = append(out, Fault{Table: ti, Field: "bytes", Class: "splice_" + cls, Kind: "splice", Pos: []int{src, l, dst}, Feat: feat})
+	}
+	return out
+}
+
+// moreKeys: on a table with a multi-level index every ref name is sought (at most 80): which index blocks a descent
+// passes through, and where it rolls over into the next block, depends on the key.
+func moreKeys(c Case, data []byte) []string {
+	f, err := fmtdec.Parse(data)
+	if err != nil {
+		return nil
+	}
+	nidx := 0
+	for _, b := range f.Blocks {
+		if b.Type == 'i' {
+			nidx++
+		}
+	}
+	if nidx < 3 {
+		return nil
+	}
+	out := []string{}
+	step := 1 + len(c.Refs)/80
+	for i := 0; i < len(c.Refs); i += step {
+		out = append(out, c.Refs[i].N, c.Refs[i].N+"0")
 	}
 	return out
 }
@@ -824,12 +849,13 @@ func main() {
 		}
 		dir := realos.Args[3]
 		plan := Plan{}
-		for _, c := range cases {
+		for ci, c := range cases {
 			b, err := writeTable(c)
 			if err != nil {
 				continue
 			}
 			ti := len(plan.Tables)
+			plan.CaseOf = append(plan.CaseOf, ci)
 			name := fmt.Sprintf("t%d.ref", ti)
 			realos.WriteFile(filepath.Join(dir, name), b, 0644)
 			plan.Tables = append(plan.Tables, name)
@@ -841,6 +867,7 @@ func main() {
 				keys = append(keys, c.Logs[n/2].N)
 			}
 			keys = append(keys, "a")
+			keys = append(keys, moreKeys(c, b)...)
 			oids := []string{}
 			for _, r := range c.Refs {
 				if r.V[0] == "v" || r.V[0] == "p" {
@@ -904,6 +931,7 @@ func main() {
 			keys = append(keys, c.Logs[n/2].N)
 		}
 		keys = append(keys, "a")
+		keys = append(keys, moreKeys(c, b)...)
 		oids := []string{}
 		for _, r := range c.Refs {
 			if r.V[0] == "v" || r.V[0] == "p" {
